@@ -23,6 +23,8 @@ pub fn run(_args: &[String]) -> i32 {
         // alias lines after / between other sub-directives of the block
         4 => "account Assets:Bank\n    note main account\n    alias Bank\n    ; a comment\n    alias B2\n\n".to_owned(),
         5 => "account Assets:Bank\n    alias Bank\n    note main account\n    alias B2\n\n".to_owned(),
+        // declared twice: the second declaration adds the aliases
+        6 => "account Assets:Bank\n    note first declaration\n\naccount Assets:Bank\n    alias Bank\n    alias B2\n\n".to_owned(),
         1 => decl("account", "Assets:Bank", &["Bank", "B2"]),
         2 => decl("account", "Assets:Bank", &["Bank", "B2"]) + &decl("account", "Assets:Bank", &["Bank"]),   // block repeated
         _ => decl("account", "Assets:Bank", &["Bank", "Bank", "B2"]),                                        // alias line repeated
@@ -31,6 +33,8 @@ pub fn run(_args: &[String]) -> i32 {
         0 => String::new(),
         4 => "commodity JPY\n    note yen\n    alias Yen\n    format 1,000 JPY\n    alias ¥\n\n".to_owned(),
         5 => "commodity JPY\n    format 1,000 JPY\n    alias Yen\n    ; c\n    alias ¥\n\n".to_owned(),
+        6 => "commodity JPY\n    format 1,000 JPY\n\ncommodity JPY\n    alias Yen\n    alias ¥\n\n".to_owned(),
+        7 => "commodity JPY\n    alias Yen\n\ncommodity JPY\n    format 1,000 JPY\n    alias ¥\n\n".to_owned(),
         1 => decl("commodity", "JPY", &["Yen", "¥"]),
         2 => decl("commodity", "JPY", &["Yen", "¥"]) + &decl("commodity", "JPY", &["Yen"]),
         _ => decl("commodity", "JPY", &["Yen", "Yen", "¥"]),
@@ -38,8 +42,8 @@ pub fn run(_args: &[String]) -> i32 {
     let body = |a1: &str, c1: &str, a2: &str, c2: &str| {
         format!("2024/01/01 one\n    {}    1000 {}\n    Equity\n\n2024/01/02 two\n    {}    500 {} = 1500 {}\n    Equity\n\n", a1, c1, a2, c2, c2)
     };
-    for ad in 1..6 {
-        for cd in 1..6 {
+    for ad in 1..7 {
+        for cd in 1..8 {
             let canonical = adecl(ad) + &cdecl(cd) + &body("Assets:Bank", "JPY", "Assets:Bank", "JPY");
             let want = match run_real(&canonical) {
                 Real::Ok(b) => b,
@@ -87,6 +91,53 @@ pub fn run(_args: &[String]) -> i32 {
         let text = c + "2024/02/01 y\n    A   1 JPY\n    Equity\n\n";
         if let Real::Ok(_) = run_real(&text) {
             bad.push((text, "conflicting alias/canonical declaration was accepted".into()));
+        }
+    }
+    // aliases in the other places a name can be written: cost, lot price, assignment, assertion on another posting,
+    // `eval` argument, `-X` target, price-DB line
+    {
+        use bumpalo::Bump;
+        use okane_core::{load, report};
+        use std::collections::HashMap;
+        use std::path::PathBuf;
+        let decl = "account Assets:Bank\n    alias Bank\n\ncommodity JPY\n    alias Yen\n    format 1,000 JPY\n\ncommodity USD\n    alias Dollar\n\n";
+        let body = |a: &str, j: &str, u: &str| format!(
+            "2024/01/01 buy\n    {a}    10 {u} @ 150 {j}\n    Equity\n\n2024/01/02 lot\n    {a}    2 {u} {{140 {j}}}\n    Equity\n\n2024/01/03 set\n    {a}    = 20 {u}\n    Equity\n\n2024/01/04 check\n    Equity    -5 {j}\n    {a}    5 {j} = 5 {j}\n\n", a = a, j = j, u = u);
+        let dir = tempfile::tempdir().expect("tempdir");
+        let observe = |text: &str, db: &str, eval: &str, target: &str| -> String {
+            let db_path = dir.path().join("p.db");
+            std::fs::write(&db_path, db).unwrap();
+            let arena = Bump::new();
+            let mut ctx = report::ReportContext::new(&arena);
+            let mut files: HashMap<PathBuf, Vec<u8>> = HashMap::new();
+            files.insert(PathBuf::from("/main.ledger"), text.as_bytes().to_vec());
+            let loader = load::Loader::new(PathBuf::from("/main.ledger"), load::FakeFileSystem::from(files));
+            let opts = report::ProcessOptions { price_db_path: Some(db_path) };
+            let mut out = String::new();
+            let mut ledger = match report::process(&mut ctx, loader, &opts) { Ok(l) => l, Err(e) => return format!("rejected: {}", format!("{}", e).lines().next().unwrap_or("")) };
+            match ledger.balance(&ctx, &report::query::BalanceQuery::default()) {
+                Ok(b) => for (a, am) in b.into_owned().into_vec() { out.push_str(&format!("{}: {}\n", a.as_str(), am.as_inline_display())); },
+                Err(e) => out.push_str(&format!("balance error {}\n", e)),
+            }
+            for t in ledger.transactions() { for p in t.postings.iter() { out.push_str(&format!("{} {} {}\n", t.date, p.account.as_str(), p.amount.as_inline_display())); } }
+            let ectx = report::query::EvalContext { date: chrono::NaiveDate::from_ymd_opt(2024, 6, 1).unwrap(), exchange: Some(target.to_owned()) };
+            match ledger.eval(&ctx, eval, &ectx) { Ok(a) => out.push_str(&format!("eval = {}\n", a.as_inline_display())), Err(e) => out.push_str(&format!("eval ! {}\n", e)) };
+            out
+        };
+        let want = observe(&format!("{}{}", decl, body("Assets:Bank", "JPY", "USD")), "P 2024/02/01 USD 155 JPY\n", "(3 USD + 100 JPY)", "JPY");
+        if want.starts_with("rejected") {
+            bad.push((decl.to_owned(), format!("canonical-spelled ledger with cost / lot / assignment was not accepted: {}", want)));
+        }
+        for (a, j, u) in [("Bank", "JPY", "USD"), ("Assets:Bank", "Yen", "USD"), ("Assets:Bank", "JPY", "Dollar"), ("Bank", "Yen", "Dollar")] {
+            for (db, ev, tg) in [("P 2024/02/01 USD 155 JPY\n", "(3 USD + 100 JPY)", "JPY"), ("P 2024/02/01 Dollar 155 Yen\n", "(3 Dollar + 100 Yen)", "Yen")] {
+                evaluated += 1;
+                let text = format!("{}{}", decl, body(a, j, u));
+                let got = observe(&text, db, ev, tg);
+                if got != want && bad.len() < 8 {
+                    let (lw, lg) = want.lines().zip(got.lines()).find(|(x, y)| x != y).unwrap_or((&want, &got));
+                    bad.push((format!("{}price db: {}eval '{}' -X {}", text, db, ev, tg), format!("with aliases the reports differ from the canonical spelling: `{}` instead of `{}`", lg, lw)));
+                }
+            }
         }
     }
     for (s, why) in bad.iter().take(10) {
